@@ -124,7 +124,27 @@ func stepSeq(q *coalesce.Queue, m *qmodel, o sop, st *seqStats) (mm *finding) {
 		if !pending && !m.closed {
 			ctx = cancelledCtx // the model says Next would block
 		}
-		item, dups, err := q.Next(ctx)
+		why := "stuck-after-insert"
+		switch {
+		case !pending && m.closed:
+			why = "stuck-after-close"
+		case !pending:
+			why = "stuck-after-cancel"
+		}
+		if why == "stuck-after-cancel" && stuckSeen.Load() >= 2 {
+			return &finding{sig: "skip"}
+		}
+		item, dups, err, returned := guardedNext(q, ctx)
+		if !returned {
+			dump := parkedInNext()
+			q.Close()
+			q.Insert("unblock")
+			if dump == "" {
+				return &finding{sig: "inconclusive", what: "watchdog: sequential Next did not return but no goroutine is parked in Next"}
+			}
+			stuckSeen.Add(1)
+			return &finding{why, fmt.Sprintf("Next (single goroutine, pending items per model: %d, closed: %v, context cancelled before the call: %v) has not returned for >= %v; goroutine: %s", len(m.order), m.closed, ctx.Err() != nil, grace, dump)}
+		}
 		if o.Kind == "nextc" && pending && err != nil && !coalesce.IsClosedQueue(err) && ctx.Err() != nil {
 			// An already-cancelled context with items pending: the statement
 			// allows both the item and the cancellation. Nothing was consumed.
@@ -172,6 +192,26 @@ func stepSeq(q *coalesce.Queue, m *qmodel, o sop, st *seqStats) (mm *finding) {
 	return nil
 }
 
+// guardedNext calls Next on its own goroutine so that an implementation that
+// blocks where the model says it must not is reported instead of hanging the
+// harness. A panic is re-raised on the caller's goroutine.
+func guardedNext(q *coalesce.Queue, ctx context.Context) (item interface{}, dups uint32, err error, returned bool) {
+	done := make(chan struct{})
+	var pan interface{}
+	go func() {
+		defer close(done)
+		defer func() { pan = recover() }()
+		item, dups, err = q.Next(ctx)
+	}()
+	if !awaitDone(done, func() int64 { return 0 }) {
+		return nil, 0, nil, false
+	}
+	if pan != nil {
+		panic(pan)
+	}
+	return item, dups, err, true
+}
+
 // runSeq executes ops, then checks the final state and drains the queue
 // (Close, Next until the closed error) against the model.
 func runSeq(ops []sop) (*finding, int, seqStats) {
@@ -207,6 +247,18 @@ func opsString(ops []sop) string {
 }
 
 func reportSeq(r *vlib.Run, mode string, trial int, ops []sop, at int, mm *finding) {
+	switch {
+	case strings.HasSuffix(mm.sig, "skip"):
+		r.Inconclusive("sequential histories with a blocking Next skipped after repeated stuck-consumer violations in this process")
+		return
+	case strings.HasSuffix(mm.sig, "inconclusive"):
+		r.Inconclusive(mm.what)
+		return
+	case strings.Contains(mm.sig, "stuck-after-"):
+		mm = &finding{strings.TrimPrefix(mm.sig, "drain-"), mm.what}
+		r.Violation(mode, trial, mm.sig, fmt.Sprintf("sequential history [%s], at step %d: %s", opsString(ops), at, mm.what), map[string]interface{}{"ops": opsString(ops), "failed_at_step": at})
+		return
+	}
 	strs := make([]string, len(ops))
 	for i, o := range ops {
 		strs[i] = o.String()
